@@ -454,7 +454,7 @@ http_req_sec_chk(const uint8_t *http_hdr, size_t hdr_size, uint32_t method_code)
 int
 http_parse_req_line(const uint8_t *http_hdr, size_t hdr_size,
     http_req_line_data_p req_data) {
-	const uint8_t *line, *ptm, *pspace;
+	const uint8_t *line, *ptm, *pspace, *pquery;
 	size_t line_size, tm;
 
 	if (NULL == http_hdr || 10 >= hdr_size || NULL == req_data)
@@ -495,14 +495,23 @@ http_parse_req_line(const uint8_t *http_hdr, size_t hdr_size,
 		req_data->host_size = req_data->uri_size;
 	} else {
 		/* scheme, host, port */
+		/* absoluteURI only: no '/' or '?' before "://". */
 		ptm = mem_find_cstr(req_data->uri, req_data->uri_size, "://");
-		if (NULL != ptm) { /* scheme */
+		if (NULL != ptm &&
+		    NULL == mem_chr(req_data->uri, (size_t)(ptm - req_data->uri), '/') &&
+		    NULL == mem_chr(req_data->uri, (size_t)(ptm - req_data->uri), '?')) { /* scheme */
 			req_data->scheme = req_data->uri;
 			req_data->scheme_size = (size_t)(ptm - req_data->scheme);
 			/* host & port */
 			req_data->host = (ptm + 3);
+			/* authority ends at first '/' or '?'. */
 			ptm = mem_chr_ptr(req_data->host,
 			    req_data->uri, req_data->uri_size, '/');
+			pquery = mem_chr_ptr(req_data->host,
+			    req_data->uri, req_data->uri_size, '?');
+			if (NULL == ptm || (NULL != pquery && pquery < ptm)) {
+				ptm = pquery;
+			}
 			if (NULL == ptm) {
 				ptm = pspace; // = (req_data->uri + req_data->uri_size);
 			}
@@ -512,7 +521,7 @@ http_parse_req_line(const uint8_t *http_hdr, size_t hdr_size,
 		}
 		/* abs_path */
 		/* Skip slash~s from head. */
-		while (ptm < (pspace - 1) && '/' == ptm[1]) {
+		while (ptm < (pspace - 1) && '/' == ptm[0] && '/' == ptm[1]) {
 			ptm ++;
 		}
 		req_data->abs_path = ptm;
